@@ -878,7 +878,7 @@ Lemma step_all : forall c s g lab, Inv c s g -> cfg_ok c -> wf_step g lab = true
   snd (q_step c s lab) = snd (spec_step (g_list g) lab) /\
   g_list (ghost_step g lab) = fst (spec_step (g_list g) lab).
 Proof.
-  intros c s g lab I [H2 HW] Hw Hh. destruct lab as [id p | | id p | id p | | | b]; cbn [q_step spec_step fst snd].
+  intros c s g lab I [H2 HW] Hw Hh. destruct lab as [id p | | id p | id p | | | b | id p]; cbn [q_step spec_step fst snd].
   - split; [apply step_push; assumption | split; reflexivity].
   - destruct (step_pop c s g I Hh) as [A B]. destruct (q_pop s) as [r s'] eqn:E. cbn [fst snd] in *.
     split; [assumption|]. split; [congruence|]. cbn [ghost_step]. destruct (g_list g) eqn:El; cbn [g_list tl]; rewrite ?El; reflexivity.
@@ -888,6 +888,7 @@ Proof.
     split; [assumption|]. split; [congruence | reflexivity].
   - split; [apply step_loader; assumption | split; reflexivity].
   - split; [apply step_tick; assumption | split; reflexivity].
+  - cbn [hyp_step] in Hh. discriminate.
 Qed.
 
 Lemma run_refines : forall c ls s g, Inv c s g -> cfg_ok c -> wf_client_from g ls = true -> hyps_from c s ls = true ->
@@ -1027,6 +1028,21 @@ Proof.
   vm_compute in E. discriminate.
 Qed.
 
+(* F24, the race: a push that lands inside a proceeding loader turn is lost although it is flushed at once:
+   the loader writes swappedToDisk = false from what it saw before the push. *)
+Definition f24_race_witness : list label :=
+  [Push 1 false; Push 2 false; Push 3 false; Push 4 false; PersistTick false; Pop; Pop; Pop; LoaderTurn; Pop;
+   LoaderRace 5 false; LoaderTurn; Pop; PersistTick false; LoaderTurn; Pop].
+
+Lemma config_independent_refuted_F24_race : ~ config_independent_statement.
+Proof.
+  intro H. specialize (H false 2 100 f24_race_witness f24_race_witness).
+  assert (E : client_outs f24_race_witness (snd (q_run (mkCfg false 2) q_init f24_race_witness)) =
+              client_outs f24_race_witness (snd (q_run (mkCfg false 100) q_init f24_race_witness))).
+  { apply H; try reflexivity; vm_compute; congruence. }
+  vm_compute in E. discriminate.
+Qed.
+
 (* F24b: purge while swapped leaves the transient store and the flag: the purged message comes back,
    and the length counter goes negative. *)
 Definition f24_purge_witness : list label :=
@@ -1081,7 +1097,7 @@ Proof.
     assert (Hcases : (lab = Pop /\ o = OPop None /\ s1 = s) \/
                      (effective (lab :: t) (o :: os) = lab :: effective t os /\
                       effective_outs (lab :: t) (o :: os) = o :: effective_outs t os /\ hyp_step c s lab = true)).
-    { destruct lab as [id p | | id p | id p | | | b]; cbn [q_step] in E1.
+    { destruct lab as [id p | | id p | id p | | | b | id p]; cbn [q_step] in E1.
       - inversion E1; subst. right. repeat split; reflexivity || exact Hh1.
       - unfold q_pop in E1. destruct (mem s) as [| x m'] eqn:Em.
         + inversion E1; subst. left. repeat split.
@@ -1090,7 +1106,8 @@ Proof.
       - inversion E1; subst. right. repeat split; reflexivity || exact Hh1.
       - unfold q_purge in E1. inversion E1; subst. right. repeat split; reflexivity || exact Hh1.
       - inversion E1; subst. right. repeat split; reflexivity || exact Hh1.
-      - inversion E1; subst. right. repeat split; reflexivity || exact Hh1. }
+      - inversion E1; subst. right. repeat split; reflexivity || exact Hh1.
+      - cbn [hyp_step_safety hyp_step] in Hh1. discriminate. }
     destruct Hcases as [(El & Eo & Es) | (Ee & Eeo & Hhs)].
     + subst. cbn [effective effective_outs] in *.
       specialize (IH s g I Hc). rewrite E2 in IH. cbn [fst snd] in IH. apply IH; assumption.
